@@ -45,6 +45,8 @@ def explore(ctx, art):
     # one peer's burst of well-formed requests to a slow resource (handler 150 ms) while a second peer asks for a fast one
     lines.append("serve udpbacklog 0 150 40 0")
     lines.append("serve udpbacklog 0 150 8 0")      # below the receive-queue size: the second peer must be served at once
+    # the application adds a route at run time while a peer's handler is running; a handler creates a route itself
+    lines.append("serve muxlive 0 0 0 0")
     # a stream peer pipelines requests with messages the application's request monitor drops (one write)
     lines.append("serve tcpmonitor 0 0 0 0")
     # the server gives up a confirmable request of its own towards a peer that stays silent: the others are still served
